@@ -21,13 +21,13 @@ def baseOrd : String → Option (El → El → Bool)
 /-- `fn-<o>`, `fnt-<o>`, `own-<o>`, `ownt-<o>`, `ownd`: the comparator *carrier* (std::function, an object owning
     a heap table, lvalue / temporary / default-constructed) is invisible to the model: only the order counts -/
 def ordOf (s : String) : Option (El → El → Bool) :=
-  if s = "ownd" then baseOrd "rk" else
+  if s = "ownd" || s = "dnam" then baseOrd "rk" else
   match s.splitOn "-" with
   | [o] => if o = "rk" then none else baseOrd o
   | [c, o] =>
     if o = "def" then none
-    else if c = "fn" || c = "fnt" then (if o = "rk" then none else baseOrd o)
-    else if c = "own" || c = "ownt" then baseOrd o else none
+    else if c = "fn" || c = "fnt" || c = "fp" || c = "fconv" then (if o = "rk" then none else baseOrd o)
+    else if c = "own" || c = "ownt" || c = "nown" || c = "fact" || c = "scop" then baseOrd o else none
   | _ => none
 
 def famOf : String → Option Family
@@ -87,7 +87,9 @@ def step (_ : Unit) (ts : List String) : Unit × String :=
     | ["run", f, e, n, ord, keys] => do
         let f ← famOf f; let e ← entryOf e; let n ← n.toNat?
         let lt ← ordOf ord; let ks ← intCsv keys
-        if !existsEntry e n || ks.length ≠ n then none else
+        -- the named-cswap construction patterns exist for the direct entry points only
+        let namedOnly := ord = "dnam" || ["nown-", "fact-", "scop-", "fconv-"].any (fun p => ord.startsWith p)
+        if !existsEntry e n || ks.length ≠ n || (namedOnly && e != .direct) then none else
         let a : List El := ks.zipIdx
         match e with
         | .direct => pure (showEls (applyNet lt (network f .direct n) a))
